@@ -36,6 +36,15 @@ def _set_order_exception(q: str, node: ast.AST) -> Optional[str]:
 
 
 def _call_exception(q: str, c: ast.Call, fn: ast.FunctionDef) -> Optional[str]:
+    if q == "clean.clean_text":
+        f = c.func
+        params = [a.arg for a in fn.args.args]
+        loop_vars = {n.target.id for n in walk_local(fn) if isinstance(n, ast.For) and isinstance(n.target, ast.Name) and isinstance(n.iter, ast.Name)
+                     and n.iter.id in params}
+        if isinstance(f, ast.Name) and f.id in loop_vars:
+            return "a custom cleaning step supplied by the caller is outside the claim (default steps are module functions)"
+        if isinstance(f, ast.Subscript) and isinstance(f.value, ast.Name) and isinstance(f.slice, ast.Name) and f.slice.id in loop_vars:
+            return f"dispatch through the module-level table `{f.value.id}` (its entries are the module's cleaners, checked pure: .../table-cleaner:*)"
     if q == "annotate.SpanUpdater.update":
         tgt = c.func
         if isinstance(tgt, ast.Name):
@@ -134,6 +143,16 @@ def run(ctx: Ctx):
             ctx.ob("R-C15-3", f"{origin}/memo-of-self", ok, "a memo is idempotent only if it caches a function of the object itself", node=fs.node, mod=fs.mod,
                    nontrivial=False)
     # the partial-updaters exception is checked, not just asserted
+    # the cleaners a step name can select are pure
+    cm = repo.modules.get("clean")
+    if cm is not None:
+        tv = cm.toplevel_assign("cleaners_lookup")
+        if isinstance(tv, ast.Dict):
+            for v in tv.values:
+                if isinstance(v, ast.Name) and f"clean.{v.id}" in eff.funcs:
+                    ctx.ob("R-C15-3", f"clean.cleaners_lookup/table-cleaner:{v.id}", not eff.tw[f"clean.{v.id}"],
+                           f"cleaner `{v.id}` selectable by name writes nothing outside its frame (write-set {sorted(map(str, eff.tw[f'clean.{v.id}']))[:3]})",
+                           node=v, mod=cm, nontrivial=False)
     init = repo.func("annotate.SpanUpdater.__init__")
     n_upd = 0
     if init is not None:
